@@ -3,6 +3,7 @@ package srvlab
 import (
 	"bytes"
 	"fmt"
+	"strings"
 	"time"
 
 	"verif/core"
@@ -49,6 +50,10 @@ func c08Cases(tier string, seed int64) []core.Case {
 	for _, mp := range []int{0, 4} {
 		mp := mp
 		cases = append(cases, core.Case{ID: fmt.Sprintf("slow-flushop/maxpend=%d", mp), Run: func(ctx *core.Ctx) core.Result { return c08SlowFlush(ctx.Seed, mp) }})
+		for _, cb := range []string{"AuthInit", "AuthCheck", "AuthRead", "AuthWrite", "AuthDestroy", "ConnOpened", "SrvReqProcess", "SrvReqRespond"} {
+			cb := cb
+			cases = append(cases, core.Case{ID: fmt.Sprintf("slow-callback/%s/maxpend=%d", cb, mp), Run: func(ctx *core.Ctx) core.Result { return c08SlowCallback(ctx.Seed, mp, cb) }})
+		}
 		cases = append(cases, core.Case{ID: fmt.Sprintf("slow-fiddestroy/maxpend=%d", mp), Run: func(ctx *core.Ctx) core.Result { return c08SlowDestroy(ctx.Seed, mp) }})
 	}
 	reps := 2
@@ -606,6 +611,132 @@ func c08SlowDestroy(seed int64, maxpend int) core.Result {
 		res.Sig(fmt.Sprintf("slowdestroy|mp=%d|%s|free=%d", maxpend, kind, len(free)))
 	}
 	res.Sample(map[string]interface{}{"scenario": "Tclunk/Tremove/failed Twalk blocked inside FidDestroy while other requests must progress", "maxpend": maxpend})
+	e.c.Hangup()
+	other.c.Hangup()
+	return res
+}
+
+// c08SlowCallback: a request is slow inside one of the implementation's *other* callbacks — the authentication
+// operations, ConnOpened of a connection being set up, the SrvReqProcess / SrvReqRespond hooks of an implementation
+// that takes over request processing — while requests with other tags on the same and on another connection must be
+// answered.
+func c08SlowCallback(seed int64, maxpend int, cb string) core.Result {
+	var res core.Result
+	cfg := Config{Dotu: true, Msize: 8192, Maxpend: maxpend}
+	switch {
+	case strings.HasPrefix(cb, "Auth"):
+		cfg.Auth = true
+	case strings.HasPrefix(cb, "SrvReq"):
+		cfg.ProcOps = true
+	}
+	s, e, other, ok := c08setup(cfg)
+	if !ok {
+		res.Inconclusive = "c08: setup failed"
+		return res
+	}
+	c := e.c
+	for round := 0; round < 6 && len(res.Violations) == 0; round++ {
+		afid := uint32(700 + 3*round)
+		gate := make(chan struct{})
+		seq0 := s.Log.Seq()
+		var slow *wire.Msg
+		auth := &wire.Msg{Type: wire.Tauth, Afid: afid, Uname: uname(e.uid), Nuname: uint32(e.uid), Aname: "a"}
+		switch cb {
+		case "AuthInit":
+			slow = auth
+		case "AuthCheck", "AuthRead", "AuthWrite", "AuthDestroy":
+			if !e.ok(auth) {
+				res.Inconclusive = "c08: Tauth failed"
+				return res
+			}
+			switch cb {
+			case "AuthCheck":
+				slow = &wire.Msg{Type: wire.Tattach, Fid: afid + 1, Afid: afid, Uname: uname(e.uid), Nuname: uint32(e.uid), Aname: "a"}
+			case "AuthRead":
+				slow = &wire.Msg{Type: wire.Tread, Fid: afid, Offset: 0, Count: 16}
+			case "AuthWrite":
+				slow = &wire.Msg{Type: wire.Twrite, Fid: afid, Offset: 0, Count: 4, Data: []byte("abcd")}
+			case "AuthDestroy":
+				slow = &wire.Msg{Type: wire.Tclunk, Fid: afid}
+			}
+		case "SrvReqProcess", "SrvReqRespond":
+			slow = &wire.Msg{Type: wire.Tstat, Fid: e.root}
+		}
+		s.Ops.SetCallbackGate(cb, gate)
+		dialed := make(chan *CConn, 1)
+		if cb == "ConnOpened" {
+			go func() { dialed <- s.Dial() }()
+		} else {
+			slow.Tag = e.next()
+			_ = c.Send(slow)
+		}
+		blocked := waitFor(W, func() bool {
+			for _, ev := range s.Log.Snapshot(seq0) {
+				if ev.Kind == "blocked" && ev.Op == cb {
+					return true
+				}
+			}
+			return false
+		})
+		if !blocked {
+			close(gate)
+			res.Inconclusive = "c08: the request never reached " + cb
+			return res
+		}
+		res.Evals++
+		var free []*wire.Msg
+		for i := 0; i < 1+round%3; i++ {
+			free = append(free, &wire.Msg{Type: wire.Tstat, Fid: e.root, Tag: e.next()})
+		}
+		_ = c.Send(free...)
+		om := &wire.Msg{Type: wire.Tstat, Fid: other.root, Tag: other.next()}
+		_ = other.c.Send(om)
+		late := false
+		deadline := time.Now().Add(W)
+		for _, m := range free {
+			if rp, err := c.WaitTag(m.Tag, time.Until(deadline)); err != nil || rp.Msg == nil {
+				late = true
+			}
+		}
+		_, oerr := other.c.WaitTag(om.Tag, time.Until(deadline))
+		close(gate)
+		what := "a connection being set up"
+		if slow != nil {
+			what = slow.String()
+		}
+		det := map[string]interface{}{"maxpend": maxpend, "round": round, "slow": what, "blocked_in": cb}
+		if late {
+			ok := true
+			for _, m := range free {
+				if rp, err := c.WaitTag(m.Tag, W); err != nil || rp.Msg == nil {
+					ok = false
+				}
+			}
+			if ok {
+				res.Violate(fmt.Sprintf("C08;head-of-line;slow-callback;%s;maxpend=%d", cb, maxpend), "requests with other tags were answered only after a request blocked in the implementation's "+cb+" was released", det)
+			} else {
+				res.Inconclusive = "c08: requests never answered"
+			}
+		}
+		if oerr != nil {
+			if rp, err := other.c.WaitTag(om.Tag, W); err == nil && rp.Msg != nil {
+				res.Violate(fmt.Sprintf("C08;head-of-line;slow-callback;other-conn;%s;maxpend=%d", cb, maxpend), "a request on another connection waited for a request blocked in "+cb, det)
+			}
+		}
+		if cb == "ConnOpened" {
+			select {
+			case nc := <-dialed:
+				nc.Hangup()
+			case <-time.After(W):
+			}
+		} else {
+			c.WaitTag(slow.Tag, W)
+		}
+		c.Quiesce(W)
+		res.Count("requests_blocked_in_other_callbacks", 1)
+		res.Sig(fmt.Sprintf("slowcallback|%s|mp=%d|free=%d", cb, maxpend, len(free)))
+	}
+	res.Sample(map[string]interface{}{"scenario": "request blocked inside " + cb + " while other requests must progress", "maxpend": maxpend})
 	e.c.Hangup()
 	other.c.Hangup()
 	return res
